@@ -77,7 +77,7 @@ class MCResult:
         mv = re.search(r"Action property (\S+) is violated", text)
         if mv:
             self.violated = mv.group(1)
-        if "Temporal properties were violated" in text:
+        if re.search(r"Temporal propert(y \S+ was|ies were) violated", text):
             self.violated = self.violated or "temporal"
 
     def check(self):
